@@ -126,6 +126,7 @@ Ltac inv1 :=
 Ltac tv_norm :=
   unfold tvle in *; cbn [fst snd] in *; autorewrite with tv in *.
 Ltac tv_done :=
+  repeat match goal with E : fst _ = fst _ |- _ => first [rewrite E in * | clear E] end;
   tv_norm; unfold tvle, pair_le, tv in *; cbn [fst snd] in *;
   repeat match goal with
          | H : (_, _) = (_, _) |- _ => injection H as ? ?
@@ -262,4 +263,434 @@ Proof.
       split; [tv_done|]. split; [left; exact R |].
       destruct (st_voted s =? vq_src q) eqn:E3; [|discriminate].
       apply N.eqb_eq in E3. intros _. rewrite H, ET, E3. reflexivity.
+Qed.
+
+(* ---------------------------------------------------------------- leader *)
+Lemma tv_notify_flr s b s' : notify_flr s b = Done s' -> tv s' = tv s.
+Proof. unfold notify_flr. intros H. go; reflexivity. Qed.
+
+Lemma tv_add_replication s n s' : add_replication s n = Done s' -> tv s' = tv s.
+Proof. unfold add_replication. intros H. go; reflexivity. Qed.
+
+Lemma tv_add_replications ns : forall s s', add_replications s ns = Done s' -> tv s' = tv s.
+Proof.
+  induction ns as [|n r IH]; intros s s' H; cbn [add_replications] in H.
+  - inversion H; reflexivity.
+  - destruct (n_id n =? st_nid s); [eauto|].
+    apply obind_inv in H. destruct H as (s1 & H1 & H2).
+    apply tv_add_replication in H1. apply IH in H2. congruence.
+Qed.
+
+Lemma tv_apply_queue q : forall s out r, apply_queue s q out = Done r -> tv (fst r) = tv s.
+Proof.
+  induction q as [|ne r IH]; intros s out res H; cbn [apply_queue] in H.
+  - inversion H; reflexivity.
+  - destruct (negb _); [discriminate|]. apply IH in H. rewrite H. tv_norm. reflexivity.
+Qed.
+
+Lemma tv_leader_apply_committed s w : leader_apply_committed s = Done w -> tv (fst w) = tv s.
+Proof.
+  unfold leader_apply_committed. intros H.
+  repeat (first [ match goal with H : apply_queue _ _ _ = Done _ |- _ => apply tv_apply_queue in H end | inv1 ]);
+  tv_norm; congruence.
+Qed.
+
+Ltac use_l :=
+  match goal with
+  | H : notify_flr _ _ = Done _ |- _ => apply tv_notify_flr in H
+  | H : add_replication _ _ = Done _ |- _ => apply tv_add_replication in H
+  | H : add_replications _ _ = Done _ |- _ => apply tv_add_replications in H
+  | H : leader_apply_committed _ = Done _ |- _ => apply tv_leader_apply_committed in H
+  end.
+
+Definition core_ok (opt : options) (f : nat) : Prop :=
+  (forall s nes w, store_entry opt f s nes = Done w -> tv (fst w) = tv s) /\
+  (forall s c w, leader_change_config opt f s c = Done w -> tv (fst w) = tv s) /\
+  (forall s tid c w, check_config_actions opt f s tid c = Done w -> tv (fst w) = tv s) /\
+  (forall s tid c id w, check_config_action opt f s tid c id = Done w -> tv (fst w) = tv s) /\
+  (forall s tid c w, do_change_config opt f s tid c = Done w -> tv (fst w) = tv s) /\
+  (forall s w, on_majority_commit opt f s = Done w -> tv (fst w) = tv s) /\
+  (forall s i w, leader_set_commit_index opt f s i = Done w -> tv (fst w) = tv s).
+
+Ltac refold opt H :=
+  fold (store_entry opt) in H; fold (leader_change_config opt) in H;
+  fold (check_config_actions opt) in H; fold (check_config_action opt) in H;
+  fold (do_change_config opt) in H; fold (on_majority_commit opt) in H;
+  fold (leader_set_commit_index opt) in H.
+
+Lemma core_tv opt f : core_ok opt f.
+Proof.
+  induction f as [|f IH].
+  { unfold core_ok; repeat split; intros; discriminate. }
+  destruct IH as (I1 & I2 & I3 & I4 & I5 & I6 & I7).
+  unfold core_ok; repeat split.
+  - (* store_entry *)
+    intros s nes w H. cbn [store_entry] in H. refold opt H.
+    match type of H with wbind (?L s nes) _ = _ => set (loop := L) in H end.
+    assert (HL : forall nes s w, loop s nes = Done w -> tv (fst w) = tv s).
+    { clear H. induction nes0 as [|ne rest IHl]; intros s0 w0 H; cbn in H.
+      - inversion H; reflexivity.
+      - fold loop in H.
+        repeat (first [ use_h | use_l
+                      | match goal with
+                        | H : loop _ _ = Done _ |- _ => apply IHl in H
+                        | H : leader_change_config opt f _ _ = Done _ |- _ => apply I2 in H
+                        end
+                      | inv1 ]); tv_norm; congruence. }
+    repeat (first [ use_h | use_l
+                  | match goal with
+                    | H : loop _ _ = Done _ |- _ => apply HL in H
+                    | H : on_majority_commit opt f _ = Done _ |- _ => apply I6 in H
+                    end
+                  | inv1 ]); tv_norm; congruence.
+  - (* leader_change_config *)
+    intros s c w H. cbn [leader_change_config] in H. refold opt H.
+    apply obind_inv in H. destruct H as (l & Hl & H).
+    apply obind_inv in H. destruct H as (s3 & H3 & H).
+    apply I3 in H. rewrite H. clear H.
+    match type of H3 with fold_left ?F _ (Done ?S2) = _ =>
+      assert (HF : forall x, fold_left F (c_nodes c) (Done S2) = Done x -> tv x = tv S2) end.
+    { apply fold_left_inv.
+      - intros x Hx; inversion Hx; reflexivity.
+      - intros acc n Hacc x Hx. go; try use_l; try subst acc; try (specialize (Hacc _ eq_refl)); tv_norm; congruence. }
+    apply HF in H3. rewrite H3. tv_norm. reflexivity.
+  - (* check_config_actions *)
+    intros s tid c w H. cbn [check_config_actions] in H. refold opt H.
+    apply obind_inv in H. destruct H as (l & Hl & H).
+    apply obind_inv in H. destruct H as (r & Hr & H).
+    destruct r as [[s1 out1] c1].
+    assert (H1 : tv s1 = tv s).
+    { repeat (first [ match goal with H : do_change_config opt f _ _ _ = Done _ |- _ => apply I5 in H end | inv1 ]);
+        tv_norm; congruence. }
+    clear Hr. apply obind_inv in H. destruct H as (l1 & Hl1 & H).
+    revert w H. apply fold_left_inv.
+    + intros w Hw; inversion Hw; subst. exact H1.
+    + intros acc id Hacc w Hw.
+      repeat (first [ match goal with H : check_config_action opt f _ _ _ _ = Done _ |- _ => apply I4 in H end | inv1 ]);
+        try subst acc; try (specialize (Hacc _ eq_refl)); tv_norm; congruence.
+  - (* check_config_action *)
+    intros s tid c id w H. cbn [check_config_action] in H. refold opt H.
+    repeat (first [ match goal with H : do_change_config opt f _ _ _ = Done _ |- _ => apply I5 in H end | inv1 ]);
+      tv_norm; congruence.
+  - (* do_change_config *)
+    intros s tid c w H. cbn [do_change_config] in H. refold opt H. apply I1 in H. exact H.
+  - (* on_majority_commit *)
+    intros s w H. cbn [on_majority_commit] in H. refold opt H.
+    repeat (first [ use_l | match goal with H : leader_set_commit_index opt f _ _ = Done _ |- _ => apply I7 in H end | inv1 ]);
+      tv_norm; congruence.
+  - (* leader_set_commit_index *)
+    intros s i w H. cbn [leader_set_commit_index] in H. refold opt H.
+    pose proof (tv_raft_set_commit_index (o_shutdown_on_remove opt) (commit_log s i) i) as R.
+    destruct (raft_set_commit_index _ _ _) as [s2 committed]. cbn [fst] in R.
+    repeat (first [ match goal with H : check_config_actions opt f _ _ _ = Done _ |- _ => apply I3 in H end | inv1 ]);
+      tv_norm; congruence.
+Qed.
+
+Lemma tv_store_entry opt f s nes w : store_entry opt f s nes = Done w -> tv (fst w) = tv s.
+Proof. apply (core_tv opt f). Qed.
+Lemma tv_check_config_actions opt f s tid c w : check_config_actions opt f s tid c = Done w -> tv (fst w) = tv s.
+Proof. apply (core_tv opt f). Qed.
+Lemma tv_check_config_action opt f s tid c id w : check_config_action opt f s tid c id = Done w -> tv (fst w) = tv s.
+Proof. apply (core_tv opt f). Qed.
+Lemma tv_do_change_config opt f s tid c w : do_change_config opt f s tid c = Done w -> tv (fst w) = tv s.
+Proof. apply (core_tv opt f). Qed.
+Lemma tv_on_majority_commit opt f s w : on_majority_commit opt f s = Done w -> tv (fst w) = tv s.
+Proof. apply (core_tv opt f). Qed.
+
+Ltac use_c :=
+  match goal with
+  | H : store_entry _ _ _ _ = Done _ |- _ => apply tv_store_entry in H
+  | H : check_config_actions _ _ _ _ _ = Done _ |- _ => apply tv_check_config_actions in H
+  | H : check_config_action _ _ _ _ _ _ = Done _ |- _ => apply tv_check_config_action in H
+  | H : do_change_config _ _ _ _ _ = Done _ |- _ => apply tv_do_change_config in H
+  | H : on_majority_commit _ _ _ = Done _ |- _ => apply tv_on_majority_commit in H
+  end.
+
+Ltac gol := repeat (first [use_h | use_h2 | use_l | use_c | inv1]).
+
+Lemma tv_leader_init opt s s' : leader_init opt s = Done s' -> tv s' = tv s.
+Proof. unfold leader_init. intros H. gol. tv_norm. congruence. Qed.
+
+Lemma tv_leader_release_out s : tv (fst (leader_release_out s)) = tv s.
+Proof.
+  unfold leader_release_out. destruct (st_ldr s); [|reflexivity].
+  cbn [fst]. tv_norm. reflexivity.
+Qed.
+
+Lemma tv_check_quorum opt s b s' : check_quorum opt s b = Done s' -> tv s' = tv s.
+Proof.
+  unfold check_quorum. intros H.
+  apply obind_inv in H. destruct H as (l & _ & H).
+  apply obind_inv in H. destruct H as (r & _ & H).
+  destruct r as [voters reachable].
+  repeat inv1; tv_norm; reflexivity.
+Qed.
+
+Lemma tv_try_transfer opt s w : try_transfer opt s = Done w -> tv (fst w) = tv s.
+Proof.
+  unfold try_transfer. intros H.
+  apply obind_inv in H. destruct H as (l & _ & H).
+  apply obind_inv in H. destruct H as (r & _ & H).
+  repeat inv1; tv_norm; reflexivity.
+Qed.
+
+Lemma tv_transfer_reply s r w : transfer_reply s r = Done w -> tv (fst w) = tv s.
+Proof. unfold transfer_reply. intros H. gol; tv_norm; reflexivity. Qed.
+
+Ltac use_t :=
+  match goal with
+  | H : try_transfer _ _ = Done _ |- _ => apply tv_try_transfer in H
+  | H : transfer_reply _ _ = Done _ |- _ => apply tv_transfer_reply in H
+  | H : check_quorum _ _ _ = Done _ |- _ => apply tv_check_quorum in H
+  end.
+Ltac golt := repeat (first [use_h | use_h2 | use_l | use_c | use_t | inv1]).
+
+Lemma tv_reply_transfer opt s r w : reply_transfer opt s r = Done w -> tv (fst w) = tv s.
+Proof. unfold reply_transfer. intros H. golt; tv_norm; congruence. Qed.
+
+Lemma tv_on_transfer opt s tid tg w : on_transfer opt s tid tg = Done w -> tv (fst w) = tv s.
+Proof. unfold on_transfer. intros H. golt; tv_norm; congruence. Qed.
+
+Lemma tv_on_timeout_now_result opt s from err res w :
+  on_timeout_now_result opt s from err res = Done w -> tv (fst w) = tv s.
+Proof.
+  unfold on_timeout_now_result. intros H.
+  repeat (first [ match goal with H : reply_transfer _ _ _ = Done _ |- _ => apply tv_reply_transfer in H end | use_t | inv1 ]);
+  tv_norm; congruence.
+Qed.
+
+Lemma tv_on_change_config opt s tid c w : on_change_config opt s tid c = Done w -> tv (fst w) = tv s.
+Proof. unfold on_change_config. intros H. golt; tv_norm; congruence. Qed.
+
+Lemma tv_on_wait_stable s tid w : on_wait_stable s tid = Done w -> tv (fst w) = tv s.
+Proof. unfold on_wait_stable. intros H. golt; tv_norm; congruence. Qed.
+
+Lemma tv_check_log_compact opt s s' : check_log_compact opt s = Done s' -> tv s' = tv s.
+Proof. unfold check_log_compact. intros H. golt; tv_norm; congruence. Qed.
+
+Lemma tvle_check_repl_update opt s id u w : check_repl_update opt s id u = Done w -> tvle s (fst w).
+Proof.
+  unfold check_repl_update. intros H.
+  repeat (first [ match goal with H : check_log_compact _ _ = Done _ |- _ => apply tv_check_log_compact in H end
+                | use_h | use_c | use_t | inv1 ]);
+  tv_done.
+Qed.
+
+Lemma tv_flr_update s id w : flr_update s id = Done w -> tv (fst w) = tv s.
+Proof. unfold flr_update. intros H. golt; tv_norm; congruence. Qed.
+Lemma tv_flr_send s id b w : flr_send s id b = Done w -> tv (fst w) = tv s.
+Proof. unfold flr_send. intros H.
+  apply obind_inv in H. destruct H as (l & _ & H).
+  destruct (find_repl _ _); [|discriminate].
+  destruct (_ =? nil_view); [discriminate|].
+  apply obind_inv in H. destruct H as (p & _ & H).
+  repeat inv1; tv_norm; congruence. Qed.
+Lemma tv_flr_resp s id a b c d w : flr_resp s id a b c d = Done w -> tv (fst w) = tv s.
+Proof. unfold flr_resp. intros H. golt; tv_norm; congruence. Qed.
+Lemma tv_flr_snap_installed s id i w : flr_snap_installed s id i = Done w -> tv (fst w) = tv s.
+Proof. unfold flr_snap_installed. intros H. golt; tv_norm; congruence. Qed.
+
+Lemma tvle_leader_event_out opt s e w : leader_event_out opt s e = Done w -> tvle s (fst w).
+Proof.
+  destruct e; cbn [leader_event_out]; intros H.
+  - apply tv_store_entry in H. tv_done.
+  - apply tvle_check_repl_update in H. exact H.
+  - apply tv_on_change_config in H. tv_done.
+  - apply tv_on_wait_stable in H. tv_done.
+  - apply tv_on_transfer in H. tv_done.
+  - apply tv_on_timeout_now_result in H. tv_done.
+  - apply tv_reply_transfer in H. tv_done.
+  - apply tv_try_transfer in H. tv_done.
+  - apply tv_flr_update in H. tv_done.
+  - apply tv_flr_send in H. tv_done.
+  - apply tv_flr_resp in H. tv_done.
+  - apply tv_flr_snap_installed in H. tv_done.
+Qed.
+
+(* ---------------------------------------------------------------- snapshots, tasks, the step *)
+Lemma tv_on_take_snapshot s tid th w : on_take_snapshot s tid th = Done w -> tv (fst w) = tv s.
+Proof. unfold on_take_snapshot. intros H. golt; tv_norm; reflexivity. Qed.
+
+Lemma tv_snapshot_run s s' : snapshot_run s = Done s' -> tv s' = tv s.
+Proof. unfold snapshot_run. intros H. golt; tv_norm; reflexivity. Qed.
+
+Lemma tv_on_snapshot_taken opt s w : on_snapshot_taken opt s = Done w -> tv (fst w) = tv s.
+Proof. unfold on_snapshot_taken. intros H. golt; tv_norm; try congruence; reflexivity. Qed.
+
+Lemma tvle_bootstrap s tid c w : bootstrap s tid c = Done w -> tvle s (fst w).
+Proof. unfold bootstrap. intros H. golt; tv_done. Qed.
+
+Lemma tvle_node_task s t w : node_task s t = Done w -> tvle s (fst w).
+Proof.
+  destruct t; cbn [node_task]; intros H.
+  - unfold nonleader_client in H. inversion H; subst. tv_done.
+  - apply tvle_bootstrap in H. exact H.
+  - unfold wreply in H. inversion H; subst. tv_done.
+  - unfold wreply in H. inversion H; subst. tv_done.
+  - apply tv_on_take_snapshot in H. tv_done.
+  - unfold wret in H. inversion H; subst. tv_done.
+Qed.
+
+Lemma tv_release_role opt old s : tv (fst (release_role opt old s)) = tv s.
+Proof.
+  unfold release_role. destruct (old =? Candidate); [reflexivity|].
+  destruct (old =? Leader); [apply tv_leader_release_out | reflexivity].
+Qed.
+
+Lemma role_release_role opt old s : st_role (fst (release_role opt old s)) = st_role s.
+Proof.
+  unfold release_role. destruct (old =? Candidate); [reflexivity|].
+  destruct (old =? Leader); [|reflexivity].
+  unfold leader_release_out. destruct (st_ldr s); [|reflexivity]. cbn [fst].
+  destruct (st_leader s =? st_nid s); reflexivity.
+Qed.
+
+Lemma tvle_init_role opt s s' : init_role opt s = Done s' -> tvle s s'.
+Proof.
+  unfold init_role. intros H.
+  destruct (st_role s =? Follower). { inversion H; subst. tv_done. }
+  destruct (st_role s =? Candidate). { apply tvle_start_election; assumption. }
+  apply tv_leader_init in H. tv_done.
+Qed.
+
+Lemma tvle_transition fuel : forall opt old s w, transition fuel opt old s = Done w -> tvle s (fst w).
+Proof.
+  induction fuel as [|f IH]; intros opt old s w H; cbn [transition] in H.
+  - destruct (st_closed s). { inversion H; subst. apply tvle_same, tv_release_role. }
+    destruct (st_role s =? old); [|discriminate]. inversion H; subst. apply tvle_refl.
+  - destruct (st_closed s). { inversion H; subst. apply tvle_same, tv_release_role. }
+    destruct (st_role s =? old). { inversion H; subst. apply tvle_refl. }
+    pose proof (tv_release_role opt old (set_timer s false)) as R.
+    destruct (release_role opt old (set_timer s false)) as [s1 out]. cbn [fst] in R.
+    apply obind_inv in H. destruct H as (s2 & H2 & H).
+    apply wbind_inv in H. destruct H as (s2' & o1 & w2 & HE & H & E).
+    inversion HE; subst. apply IH in H. apply tvle_init_role in H2.
+    rewrite E. apply tvle_trans with s2'; [|exact H].
+    tv_done.
+Qed.
+
+(* a node that is (or becomes) follower goes through no election in the role change *)
+Lemma tv_transition_follower fuel : forall opt old s w,
+  st_role s = Follower -> transition fuel opt old s = Done w -> tv (fst w) = tv s.
+Proof.
+  induction fuel as [|f IH]; intros opt old s w HR H; cbn [transition] in H.
+  - destruct (st_closed s). { inversion H; subst. apply tv_release_role. }
+    destruct (st_role s =? old); [|discriminate]. inversion H; subst. reflexivity.
+  - destruct (st_closed s). { inversion H; subst. apply tv_release_role. }
+    destruct (st_role s =? old). { inversion H; subst. reflexivity. }
+    pose proof (tv_release_role opt old (set_timer s false)) as R.
+    pose proof (role_release_role opt old (set_timer s false)) as RR.
+    destruct (release_role opt old (set_timer s false)) as [s1 out]. cbn [fst] in R, RR.
+    change (st_role (set_timer s false)) with (st_role s) in RR. rewrite HR in RR.
+    apply obind_inv in H. destruct H as (s2 & H2 & H).
+    apply wbind_inv in H. destruct H as (s2' & o1 & w2 & HE & H & E).
+    inversion HE; subst.
+    unfold init_role in H2. rewrite RR in H2. cbn in H2. inversion H2; subst.
+    apply IH in H; [|exact RR]. rewrite E, H. tv_norm. exact R.
+Qed.
+
+Lemma tv_transition_same fuel opt old s w :
+  st_role s = old -> transition fuel opt old s = Done w -> tv (fst w) = tv s.
+Proof.
+  intros HR H. destruct fuel; cbn [transition] in H.
+  - destruct (st_closed s). { inversion H; subst. apply tv_release_role. }
+    rewrite HR, N.eqb_refl in H. inversion H; reflexivity.
+  - destruct (st_closed s). { inversion H; subst. apply tv_release_role. }
+    rewrite HR, N.eqb_refl in H. inversion H; reflexivity.
+Qed.
+
+Lemma finish_inv opt old code t last w o s' :
+  finish opt old code t last w = Done (o, s') ->
+  exists out2, transition 4 opt old (fst w) = Done (s', out2) /\
+               ob_result o = code /\ ob_respterm o = t.
+Proof.
+  unfold finish. destruct w as [s1 out1]. intros H.
+  apply obind_inv in H. destruct H as ([s2 out2] & H1 & H). inversion H; subst.
+  exists out2. cbn. auto.
+Qed.
+
+Lemma tvle_finish opt old code t last w o s' :
+  finish opt old code t last w = Done (o, s') -> tvle (fst w) s'.
+Proof.
+  intros H. apply finish_inv in H. destruct H as (out2 & H & _).
+  apply tvle_transition in H. exact H.
+Qed.
+
+Lemma model_event_mid opt s ev o s' :
+  model_event opt s ev = Done (o, s') ->
+  exists sm, tvle s sm /\ tvle sm s' /\ (ob_result o <> 0 -> ob_respterm o = st_term sm).
+Proof.
+  destruct ev; cbn [model_event]; intros H.
+  - (* vote request *)
+    apply obind_inv in H. destruct H as ([code s1] & H1 & H).
+    apply on_vote_request_spec in H1. destruct H1 as (L & _ & _).
+    pose proof (finish_inv _ _ _ _ _ _ _ _ H) as (out2 & _ & _ & T).
+    apply tvle_finish in H. cbn [fst] in H.
+    exists s1. split; [exact L|]. split; [|intros _; exact T].
+    eapply tvle_same_l; [|exact H]. tv_norm. reflexivity.
+  - (* append request *)
+    apply obind_inv in H. destruct H as ([code s1] & H1 & H).
+    apply tvle_on_append_request in H1.
+    destruct (code =? unexpectedErr); [discriminate|].
+    pose proof (finish_inv _ _ _ _ _ _ _ _ H) as (out2 & _ & _ & T).
+    apply tvle_finish in H. cbn [fst] in H.
+    exists s1. split; [exact H1|]. split; [|intros _; exact T].
+    eapply tvle_same_l; [|exact H]. tv_norm. reflexivity.
+  - (* install snapshot *)
+    apply obind_inv in H. destruct H as ([code s1] & H1 & H).
+    apply tvle_on_install_snap_request in H1.
+    pose proof (finish_inv _ _ _ _ _ _ _ _ H) as (out2 & _ & _ & T).
+    apply tvle_finish in H. cbn [fst] in H.
+    exists s1. split; [exact H1|]. split; [|intros _; exact T].
+    eapply tvle_same_l; [|exact H]. tv_norm. reflexivity.
+  - (* timeout now *)
+    pose proof (tv_on_timeout_now_request s) as R.
+    destruct (on_timeout_now_request s) as [code s1]. cbn [snd] in R.
+    pose proof (finish_inv _ _ _ _ _ _ _ _ H) as (out2 & _ & _ & T).
+    apply tvle_finish in H. cbn [fst] in H.
+    exists s1. split; [apply tvle_same; exact R|]. split; [|intros _; exact T].
+    eapply tvle_same_l; [|exact H]. tv_norm. reflexivity.
+  - (* timeout *)
+    apply obind_inv in H. destruct H as (s1 & H1 & H).
+    pose proof (finish_inv _ _ _ _ _ _ _ _ H) as (out2 & _ & C & _).
+    apply tvle_finish in H. cbn [fst] in H.
+    exists s1. split; [|split; [exact H | intros X; congruence]].
+    destruct (st_role s =? Follower). { inversion H1; subst. tv_done. }
+    destruct (st_role s =? Candidate). { apply tvle_start_election in H1. tv_done. }
+    unfold leader_on_timeout in H1. apply tv_check_quorum in H1. tv_done.
+  - (* vote result *)
+    destruct (st_role s =? Candidate).
+    + apply obind_inv in H. destruct H as (s1 & H1 & H).
+      pose proof (finish_inv _ _ _ _ _ _ _ _ H) as (out2 & _ & C & _).
+      apply tvle_finish in H. cbn [fst] in H. apply tvle_on_vote_result in H1.
+      exists s1. split; [exact H1|]. split; [exact H | intros X; congruence].
+    + inversion H; subst. exists s'. split; [apply tvle_refl|]. split; [apply tvle_refl|]. intros X; exfalso; apply X; reflexivity.
+  - (* disconnected *)
+    inversion H; subst. exists s. split; [apply tvle_refl|]. split; [tv_done|]. intros X; exfalso; apply X; reflexivity.
+  - (* restart *)
+    apply obind_inv in H. destruct H as (s1 & H1 & H). inversion H; subst.
+    apply tv_restart in H1.
+    exists s. split; [apply tvle_refl|]. split; [tv_done|]. intros X; exfalso; apply X; reflexivity.
+  - (* leader event *)
+    destruct (st_role s =? Leader).
+    + apply obind_inv in H. destruct H as (w & H1 & H).
+      pose proof (finish_inv _ _ _ _ _ _ _ _ H) as (out2 & _ & C & _).
+      apply tvle_finish in H. apply tvle_leader_event_out in H1.
+      exists (fst w). split; [exact H1|]. split; [exact H | intros X; congruence].
+    + inversion H; subst. exists s'. split; [apply tvle_refl|]. split; [apply tvle_refl|]. intros X; exfalso; apply X; reflexivity.
+  - (* task *)
+    apply obind_inv in H. destruct H as ([s1 out] & H1 & H).
+    pose proof (finish_inv _ _ _ _ _ _ _ _ H) as (out2 & _ & C & _).
+    apply tvle_finish in H. cbn [fst] in H. apply tvle_node_task in H1. cbn [fst] in H1.
+    exists s1. split; [exact H1|]. split; [|intros X; congruence].
+    eapply tvle_same_l; [|exact H]. tv_norm. reflexivity.
+  - (* snapshot goroutine *)
+    apply obind_inv in H. destruct H as (s1 & H1 & H). inversion H; subst.
+    apply tv_snapshot_run in H1.
+    exists s. split; [apply tvle_refl|]. split; [tv_done|]. intros X; exfalso; apply X; reflexivity.
+  - (* snapshot taken *)
+    apply obind_inv in H. destruct H as (w & H1 & H).
+    pose proof (finish_inv _ _ _ _ _ _ _ _ H) as (out2 & _ & C & _).
+    apply tvle_finish in H. apply tv_on_snapshot_taken in H1.
+    exists (fst w). split; [tv_done|]. split; [exact H | intros X; congruence].
 Qed.
